@@ -158,6 +158,9 @@ class PathExplorer:
             ret = "ok"
         elif bb in self.err_blocks:
             ret = "err"
+        elif k == "call" and t.get("dest", {}).get("l") == 0 and not t["dest"]["p"]:
+            c0 = body.call_at(bb)
+            ret = "call:" + (c0.decl if c0 else "?")
         if k == "return":
             return [(None, facts, flags, nexted, ret)]
         if k in ("unreachable", "resume", "terminate"):
